@@ -181,9 +181,23 @@ pub fn gen_wsdl_set_opt(ch: &mut Chooser, tag: u64, wild: bool) -> (InputSet, Ge
         let _ = write!(w, " xmlns:{}=\"{}\"", &NS_WORDS[i][..1], xsd_ns[i - 1]);
     }
     let _ = writeln!(w, " elementFormDefault=\"qualified\" targetNamespace=\"{tns}\">");
+    // wild: the location may be written as a path or URL that names no registered file literally (HEAD rejects the
+    // set with ImportNotFound - the *same* error in every environment), next to siblings with near-miss names:
+    // a name that is a suffix of another (`1.xsd` / `t1.xsd`) and a name that differs only by case (`T1.xsd`)
+    let loc_prefix = if wild { ["", "", "./", "schemas/", "http://example.com/schemas/"][ch.choose("gen_location_style", 5) as usize] } else { "" };
     for i in 1..n_files {
         if fan || i == 1 {
-            let _ = writeln!(w, "      <xs:import namespace=\"{}\" schemaLocation=\"t{i}.xsd\"/>", xsd_ns[i - 1]);
+            let _ = writeln!(w, "      <xs:import namespace=\"{}\" schemaLocation=\"{loc_prefix}t{i}.xsd\"/>", xsd_ns[i - 1]);
+        }
+    }
+    if wild && n_files > 1 {
+        let near = ch.choose("gen_near_miss_names", 4);
+        let other = |name: &str, ty: &str| format!("<?xml version=\"1.0\" encoding=\"UTF-8\"?>\n<xs:schema xmlns:xs=\"http://www.w3.org/2001/XMLSchema\" xmlns:n=\"http://example.com/gen/nearmiss\" elementFormDefault=\"qualified\" targetNamespace=\"http://example.com/gen/nearmiss\">\n  <xs:complexType name=\"{ty}\"><xs:sequence><xs:element name=\"{name}\" type=\"xs:string\"/></xs:sequence></xs:complexType>\n</xs:schema>\n");
+        if near & 1 == 1 {
+            files.push(("1.xsd".to_string(), other("suffix", "SuffixNamed").into_bytes()));
+        }
+        if near & 2 == 2 {
+            files.push(("T1.xsd".to_string(), other("upper", "UpperNamed").into_bytes()));
         }
     }
     if wild && n_files > 1 && ch.choose("gen_import_without_location", 2) == 1 {
@@ -272,6 +286,8 @@ pub fn gen_wsdl_set_opt(ch: &mut Chooser, tag: u64, wild: bool) -> (InputSet, Ge
             let occ_label = if occ.is_empty() { "" } else if occ.contains("unbounded") { "/vec[0]" } else { "/option" };
             let (good, bad, depth): (String, Option<String>, usize) = if ty == "tns:TokenCode" {
                 let (a, b) = facet_values(token_kind);
+                // numeric facets: alternate between an out-of-range number and text that is not a number at all
+                let b = if matches!(token_kind % 6, 3 | 4) && f % 2 == 1 { "12x" } else { b };
                 (a.to_string(), Some(b.to_string()), 1)
             } else if ty == "tns:RegionCode" {
                 ("north".to_string(), Some("west".to_string()), 1)
@@ -290,8 +306,8 @@ pub fn gen_wsdl_set_opt(ch: &mut Chooser, tag: u64, wild: bool) -> (InputSet, Ge
                 mutations.push(serde_json::json!({"name": format!("{fname}{f} violates its facet"), "position": format!("body/depth{depth}{occ_label}"), "find": one, "replace": format!("<{tag}>{b}</{tag}>")}));
                 if occ.contains("unbounded") {
                     // a large request: 80 more valid elements and the violating one at the very end
-                    let many = one.repeat(80);
-                    mutations.push(serde_json::json!({"name": format!("{fname}{f}: 80 more elements, the last one violating"), "position": format!("body/depth{depth}/vec[81]/large-request"), "find": one, "replace": format!("{one}{many}<{tag}>{b}</{tag}>")}));
+                    let many = one.repeat(2500);
+                    mutations.push(serde_json::json!({"name": format!("{fname}{f}: 2500 more elements (> 64 KiB), the last one violating"), "position": format!("body/depth{depth}/vec[2501]/large-request"), "find": one, "replace": format!("{one}{many}<{tag}>{b}</{tag}>")}));
                 }
             }
         }
